@@ -89,23 +89,6 @@ Proof.
 Qed.
 
 (* ---- the characters outside every skipped span --------------------------- *)
-Definition nspan := (nat * nat)%type.
-Definition ospan_of (s : nspan) : ospan := (Some (fst s), Some (snd s)).
-
-Definition covers (i : nat) (s : nspan) : bool := (fst s <=? i) && (i <? snd s).
-Definition covered (i : nat) (spans : list nspan) : bool := existsb (covers i) spans.
-
-(* the text with index i of its first character: every character whose index
-   lies in no span, once, in order *)
-Fixpoint keep_from (i : nat) (s : str) (spans : list nspan) : str :=
-  match s with
-  | [] => []
-  | c :: s' => if covered i spans then keep_from (S i) s' spans
-               else c :: keep_from (S i) s' spans
-  end.
-
-Definition uncovered (s : str) (spans : list nspan) : str := keep_from 0 s spans.
-
 Lemma keep_from_app : forall s1 s2 i spans,
   keep_from i (s1 ++ s2) spans = keep_from i s1 spans ++ keep_from (i + length s1) s2 spans.
 Proof.
@@ -247,14 +230,6 @@ Section Sort.
 Context {K : Type}.
 Notation skip := (@skip K).
 
-Definition start_le (x y : skip) : Prop :=
-  match sk_start x, sk_start y with
-  | Some a, Some b => a <= b
-  | _, _ => False
-  end.
-
-Definition has_start (x : skip) : Prop := exists a, sk_start x = Some a.
-
 Lemma insert_skip_ok : forall (x : skip) l, has_start x -> Forall has_start l ->
   StronglySorted start_le l ->
   exists l', insert_skip x l = Ok l' /\ Permutation (x :: l) l' /\ StronglySorted start_le l' /\
@@ -393,28 +368,13 @@ Section Splice.
 Context {K : Type}.
 Notation skip := (@skip K).
 
-(* the span of a skip as a pair of numbers (junk and text entities) *)
-Definition nsp (s : skip) : nspan :=
-  match sk_span s with
-  | (Some a, Some b) => (a, b)
-  | _ => (0, 0)
-  end.
-
-(* inside the text and not empty *)
-Definition placed (n : nat) (s : skip) : Prop :=
-  exists a b, sk_span s = (Some a, Some b) /\ a < b /\ b <= n.
-
-(* two skips are the same region of the text or do not overlap *)
-Definition apart (s t : skip) : Prop :=
-  nsp s = nsp t \/ snd (nsp s) <= fst (nsp t) \/ snd (nsp t) <= fst (nsp s).
-
-Lemma placed_span : forall n s, placed n s -> sk_span s = ospan_of (nsp s).
+Lemma placed_span : forall n (s : skip), placed n s -> sk_span s = ospan_of (nsp s).
 Proof. intros n s (a & b & E & _). unfold nsp. now rewrite E. Qed.
 
-Lemma placed_nsp : forall n s, placed n s -> fst (nsp s) < snd (nsp s) /\ snd (nsp s) <= n.
+Lemma placed_nsp : forall n (s : skip), placed n s -> fst (nsp s) < snd (nsp s) /\ snd (nsp s) <= n.
 Proof. intros n s (a & b & E & H). unfold nsp. rewrite E. exact H. Qed.
 
-Lemma placed_start : forall n s, placed n s -> sk_start s = Some (fst (nsp s)).
+Lemma placed_start : forall n (s : skip), placed n s -> sk_start s = Some (fst (nsp s)).
 Proof. intros n s (a & b & E & _). unfold sk_start, nsp. now rewrite E. Qed.
 
 Lemma ok_of_sorted : forall n (l : list skip) o,
@@ -471,17 +431,6 @@ Qed.
 End Splice.
 
 (* ---- block level: the localization as a list of blocks ------------------- *)
-(* a block is a piece of text, flagged when it is to be skipped *)
-Fixpoint block_spans (off : nat) (bs : list (bool * str)) : list nspan :=
-  match bs with
-  | [] => []
-  | (skipped, t) :: bs' =>
-      (if skipped then [(off, off + length t)] else []) ++ block_spans (off + length t) bs'
-  end.
-
-Definition kept_blocks (bs : list (bool * str)) : list str :=
-  map snd (filter (fun b => negb (fst b)) bs).
-
 Lemma slice_app_left : forall (p q : str) o, o <= length p ->
   slice (p ++ q) o (length p) = skipn o p.
 Proof.
@@ -508,7 +457,7 @@ Proof.
       unfold kept_blocks at 2. simpl.
       replace (skipn (length pre + length t) (pre ++ t)) with (@nil N); [reflexivity|].
       symmetry. rewrite <- app_length. apply skipn_all.
-    + simpl app. rewrite (IH o) by lia. unfold kept_blocks at 2. simpl.
+    + simpl app. rewrite (IH o) by lia. unfold kept_blocks. simpl.
       rewrite skipn_app. replace (o - length pre) with 0 by lia. simpl.
       now rewrite <- app_assoc.
 Qed.
@@ -619,13 +568,13 @@ Proof.
   - simpl in H. right. exists []. split; [reflexivity|].
     destruct (has caps can_merge); [|discriminate]. split; [reflexivity|].
     destruct (nonempty missing); [|discriminate].
-    destruct (trailing keqb refs missing []); [discriminate|]. simpl in H. exact H.
+    destruct (trailing keqb refs missing []); [discriminate|]. simpl in H. now inversion H.
   - simpl nonempty in H. cbv iota in H.
     destruct (sort_skips (s :: skips)) as [sorted|t'] eqn:E; simpl in H.
     + right. exists sorted. split; [reflexivity|].
       destruct (has caps can_merge); [|discriminate]. split; [reflexivity|].
-      destruct (trailing keqb refs missing sorted); [discriminate|]. simpl in H. exact H.
-    + left. exact H.
+      destruct (trailing keqb refs missing sorted); [discriminate|]. simpl in H. now inversion H.
+    + left. now inversion H.
 Qed.
 
 End MergeFacts.
